@@ -131,6 +131,16 @@ class FakeSocket:
     def _run_command(self, func, sig, args, from_script):
         command_items = {}
         try:
+            # A subscribed connection is refused before the arguments are looked at
+            if self._pubsub and sig.name not in [
+                'ping',
+                'subscribe',
+                'unsubscribe',
+                'psubscribe',
+                'punsubscribe',
+                'quit'
+            ]:
+                raise SimpleError(msgs.BAD_COMMAND_IN_PUBSUB_MSG)
             ret = sig.apply(args, self._db)
             if len(ret) == 1:
                 result = ret[0]
@@ -138,15 +148,6 @@ class FakeSocket:
                 args, command_items = ret
                 if from_script and msgs.FLAG_NO_SCRIPT in sig.flags:
                     raise SimpleError(msgs.COMMAND_IN_SCRIPT_MSG)
-                if self._pubsub and sig.name not in [
-                    'ping',
-                    'subscribe',
-                    'unsubscribe',
-                    'psubscribe',
-                    'punsubscribe',
-                    'quit'
-                ]:
-                    raise SimpleError(msgs.BAD_COMMAND_IN_PUBSUB_MSG)
                 result = func(*args)
                 assert valid_response_type(result)
         except SimpleError as exc:
